@@ -1073,7 +1073,10 @@ def run(rep, tier):
                       "wit-parser / wasmparser sources in the cargo registry (enum variant lists, text anchors)",
                       "feature vocabulary and probe tests transcribed in rules/C16.py (FEATURES)",
                       "allow-list reasons marked 'verified by reading only'"],
-        assumptions=["generator options other than those exercised by codegen_test_variants keep their defaults",
+        assumptions=["an exclusion of named-fixed-length-list.wit declares only the *named* form (`type t = list<T, N>`, "
+                     "feature fll-named) unsupported; a site that an anonymous `list<T, N>` reaches as well (feature fll) "
+                     "is not covered by it (DESIGN.md C16 R16.2)",
+                     "generator options other than those exercised by codegen_test_variants keep their defaults",
                      "a 'valid world' is one wit-parser resolves and wit-component can encode (1..=32 flags)",
                      "an exclusion by config.async_ also declares error-context (part of the async proposal; checked: "
                      "every error-context test is an async test)"],
